@@ -235,7 +235,7 @@ def gen_focus(rng):
     return {"t0": rng.choice(["0", "0", "1", "-1"]), "codes": codes, "plan": plan}
 
 
-DIRECT = ["empty-lazy", "lazy-operands", "mixed-env", "late-fail-any", "late-fail-all", "nested-detached"]
+DIRECT = ["empty-lazy", "lazy-operands", "mixed-env", "mixed-env-matrix", "late-fail-any", "late-fail-all", "nested-detached"]
 
 
 def run_direct(name):
@@ -299,6 +299,72 @@ def run_direct(name):
                 chk("mixed-env-refused " + what, "environments" in str(x), x)
             except Exception as x:
                 chk("mixed-env-refused " + what, False, repr(x))
+    elif name == "mixed-env-matrix":
+        # a foreign operand in every state (pending / triggered / processed ok / processed failed) at every position among own
+        # operands that are pending or processed: the construction must raise ValueError and leave nothing behind
+        class Boom(Exception):
+            pass
+
+        def foreign(e2, state):
+            f = e2.event()
+            if state == "triggered":
+                f.succeed("f")
+            elif state == "processed-ok":
+                f.succeed("f")
+                e2.run()
+            elif state == "processed-failed":
+                f.fail(Boom("f"))
+                try:
+                    e2.run()
+                except Boom:
+                    pass
+            return f
+        for kind in ("all_of", "any_of", "&", "|", "nested"):
+            for state in ("pending", "triggered", "processed-ok", "processed-failed"):
+                for pos in ((0, 1, 2) if kind in ("all_of", "any_of", "nested") else (0, 1)):
+                    for own_first_processed in (False, True):
+                        e1, e2 = Environment(), Environment()
+                        op = e1.event()                         # own, pending
+                        oq = e1.timeout(0, "q")                 # own, processed
+                        e1.run()
+                        f = foreign(e2, state)
+                        inner = None
+                        if kind == "nested":
+                            inner = e1.all_of([op, oq])         # an own condition as operand of the outer one
+                            own = [inner, oq] if own_first_processed else [op, inner]
+                        elif kind in ("&", "|"):
+                            own = [oq] if own_first_processed else [op]
+                        else:
+                            own = [oq, op] if own_first_processed else [op, oq]
+                        ops = list(own)
+                        ops.insert(min(pos, len(ops)), f)
+                        watched = [x for x in (op, oq, f, inner) if x is not None]
+                        before = [(None if x.callbacks is None else list(x.callbacks)) for x in watched]
+                        q1, q2 = len(e1._queue), len(e2._queue)
+                        what = f"{kind} foreign={state} pos={pos} own-processed-first={own_first_processed}"
+                        try:
+                            if kind == "&":
+                                c = ops[0] & ops[1]
+                            elif kind == "|":
+                                c = ops[0] | ops[1]
+                            elif kind == "all_of":
+                                c = e1.all_of(ops)
+                            elif kind == "any_of":
+                                c = e1.any_of(ops)
+                            else:
+                                c = e1.any_of(ops) if pos % 2 else e1.all_of(ops)
+                            chk("mixed-env-accepted " + what, False, f"no exception, triggered={c.triggered}")
+                        except ValueError as x:
+                            chk("mixed-env-accepted " + what, "environments" in str(x), x)
+                        except Exception as x:
+                            chk("mixed-env-accepted " + what, False, repr(x))
+                        after = [(None if x.callbacks is None else list(x.callbacks)) for x in watched]
+                        chk("mixed-env-left-callbacks " + what, after == before,
+                            [len(a) - len(b) for a, b in zip(after, before) if a is not None and b is not None])
+                        chk("mixed-env-scheduled " + what, (len(e1._queue), len(e2._queue)) == (q1, q2),
+                            (len(e1._queue) - q1, len(e2._queue) - q2))
+                        if state == "processed-failed":
+                            chk("mixed-env-defused-foreign " + what, not f.defused, f.defused)
     elif name in ("late-fail-any", "late-fail-all"):
         class Boom(Exception):
             pass
